@@ -263,6 +263,31 @@ func TestC01Authenticity(t *testing.T) {
 			w.ID = e.ID
 			alts = append(alts, alt{"sig-by-other-key", w})
 		}
+		// values no verifier may accept: a pubkey that is no curve point (the id recomputed, so
+		// that the signature check is what must fail), r >= p, s >= n, a digit that is not hex
+		{
+			x := gen.CloneEvent(e)
+			x.Pubkey = rapid.SampledFrom(gen.OffCurvePubkeys).Draw(t, "aoff")
+			x.ID = gen.ComputeID(x)
+			alts = append(alts, alt{"pubkey-off-curve", x})
+			y := gen.CloneEvent(e)
+			y.Sig = gen.FieldPrimeHex + y.Sig[64:]
+			alts = append(alts, alt{"sig-r-out-of-range", y})
+			z := gen.CloneEvent(e)
+			z.Sig = z.Sig[:64] + gen.GroupOrderHex
+			alts = append(alts, alt{"sig-s-out-of-range", z})
+			w := gen.CloneEvent(e)
+			pos := rapid.IntRange(0, 63).Draw(t, "anonhexpos")
+			switch rapid.IntRange(0, 2).Draw(t, "anonhexfield") {
+			case 0:
+				w.ID = w.ID[:pos] + "g" + w.ID[pos+1:]
+			case 1:
+				w.Pubkey = w.Pubkey[:pos] + "g" + w.Pubkey[pos+1:]
+			default:
+				w.Sig = w.Sig[:pos] + "g" + w.Sig[pos+1:]
+			}
+			alts = append(alts, alt{"digit-not-hex", w})
+		}
 		// shortened / lengthened id and sig (also when the cut-off byte is 00)
 		for _, f := range []string{"id", "sig"} {
 			get := func(x *mocrelay.Event) *string {
